@@ -20,7 +20,7 @@ from vf.ref import ber, filt
 from vf.ref import ldap as R
 
 ATTRS = ["cn", "2.5.4.3", "cn;lang-en", "a-b;x-1;y"]
-VTOK = ["a", " ", "\\28", "\\2A", "\\2a", "\\5c", "\\00", "\\C3\\a9", "é", "=", ":", "~"]
+VTOK = ["a", " ", "\\28", "\\2A", "\\2a", "\\5c", "\\00", "\\C3\\a9", "é", "=", ":", "~", "<", ">"]
 
 
 def values(maxlen: int) -> t.List[str]:
